@@ -466,6 +466,12 @@ def mutational_timescale(
     adjust = np.cumsum(adjust)
     origin = epoch_breaks[changepoints]
 
+    if not adjust[-1] > 0.0:
+        # no mutations on any branch of positive length (e.g. all of them are on
+        # branches whose current point estimates are inverted): the time scale
+        # cannot be estimated, so leave it unchanged
+        adjust = origin.copy()
+
     return origin, adjust
 
 
